@@ -21,8 +21,10 @@ RULE = ("values: nested containers (depth <= 4), unicode incl. astral, combining
         "ctx().v, ctx('v'), ctx(\"v\") in YAQL and Jinja, alone, inside a list and inside a mapping; and the path workflow "
         "input -> vars -> action input -> action result -> publish -> next task's input -> output across "
         "serialize/deserialize; purity: the data argument of every evaluator call is deep-compared before/after; "
-        "internals: ctx('__state') etc. must be refused, ctx() must show no `__*` key, no `__*` key in any stored delta "
-        "or output; non-trivial = container value or a string/number from the hostile classes; distinct = value digest")
+        "internals: ctx('__state') etc. must be refused, ctx() must show no `__*` key (bare, embedded in text, iterated by "
+        "a Jinja block statement), no `__*` key in any stored delta or output, and the whole context handed to an action, "
+        "published and rendered as output while conducting (inside and outside a with-items task) shows none, while a "
+        "user value with a `__` key below the top level stays as it is; non-trivial = container value or a string/number from the hostile classes; distinct = value digest")
 ASSUMPTIONS = ASSUME_SIM + ["NaN is excluded (not a JSON value); float comparison is exact"]
 
 DELIMS = ("<%", "%>", "{{", "}}", "{%", "%}", "{#", "#}")
@@ -235,6 +237,64 @@ def internals(job):
         keys = list(r.keys()) if isinstance(r, dict) else list(r)
         if any(str(k).startswith("__") for k in keys):
             viol("internal_in_ctx", "%s shows %r" % (expr, keys), subject="ctx()")
+    # the whole context read in other documented forms (text around it, Jinja block statements)
+    for expr in ("keys: <% ctx().keys() %>", "{% for k in ctx() %}{{ k }},{% endfor %}",
+                 "{% for k, v in ctx().items() %}{{ k }}={{ v }};{% endfor %}", "whole {{ ctx() }}", "whole <% ctx() %>",
+                 "{% if ctx().__state %}leak{% endif %}ok", "{% if ctx('__state') %}leak{% endif %}ok"):
+        out["evaluations"] += 1
+        out["nontrivial"].add(expr)
+        try:
+            r = expr_base.evaluate(expr, copy.deepcopy(ctx))
+        except Exception:
+            C["refused"] = C.get("refused", 0) + 1
+            continue
+        C["text_forms_evaluated"] = C.get("text_forms_evaluated", 0) + 1
+        if any(w in str(r) for w in ("__state", "__current", "__custom", "secret", "hidden", "leak")):
+            viol("internal_in_ctx", "%s renders %r" % (expr, r), subject="ctx()")
+    # ... and while conducting: the whole context handed to an action, published and rendered as output, inside and
+    # outside a with-items task (where the engine keeps __current_item / __current_task / __state in the context);
+    # a user value that itself has a double-underscore key below the top level must stay as it is
+    for E in ("<% ctx() %>", "{{ ctx() }}", "<% ctx().keys() %>", "{{ ctx().keys() | list }}",
+              "{% for k in ctx() %}{{ k }},{% endfor %}"):
+        wf = {"version": 1.0, "input": [{"xs": [1, 2]}], "vars": [{"a": 1}, {"nested": {"__user": 5}}],
+              "tasks": {"t0": {"action": "core.echo", "input": {"message": E},
+                               "next": [{"publish": [{"snap": E}], "do": "t1"}]},
+                        "t1": {"with": {"items": "<% ctx(xs) %>"}, "action": "core.echo", "input": {"message": E},
+                               "next": [{"publish": [{"snap2": E}, {"res": "<% result() %>"}], "do": "t2"}]},
+                        "t2": {"action": "core.noop"}},
+              "output": [{"snap": "<% ctx(snap) %>"}, {"snap2": "<% ctx(snap2) %>"}, {"whole": E}]}
+        if not workloads.inspect_ok(wf):
+            C["internals_definitions_rejected"] = C.get("internals_definitions_rejected", 0) + 1
+            continue
+        run = explore.make_run(dict(wf=wf, inputs={}, oseed=3, p_fail=0.0), [m for m in workloads.monitors() if m.name != "ledger"],
+                               model=None, label="internals %s" % E)
+        explore.run_free(run, explore.Policy(pseed=1))
+        run.finish()
+        out["evaluations"] += 1
+        out["nontrivial"].add("conducted " + E)
+        C["internals_conducted"] = C.get("internals_conducted", 0) + 1
+        seen = [("action input of %s" % o["task"], (o.get("input") or {}).get("message")) for o in run.offers]
+        st = run.c.serialize()["state"]
+        for i, d in enumerate(st["contexts"]):
+            for k in ("snap", "snap2"):
+                if k in d:
+                    seen.append(("published %s" % k, d[k]))
+        for k, v in (run.c.get_workflow_output() or {}).items():
+            seen.append(("output %s" % k, v))
+        if run.status() != "succeeded" or len(seen) < 8:
+            viol("internals_workload_broken", "status %s, %d observations, errors %r" % (run.status(), len(seen), run.c.errors[:2]))
+        for where, v in seen:
+            C["internals_observations"] = C.get("internals_observations", 0) + 1
+            top = list(v.keys()) if isinstance(v, dict) else (list(v) if isinstance(v, (list, tuple)) else
+                                                              [x for x in str(v).split(",")])
+            if any(str(k).strip().startswith("__") for k in top):
+                viol("internal_leaked", "%s of %s shows engine internals: %r" % (where, E, top), subject=where.split(" ")[0])
+            if isinstance(v, dict) and v.get("nested") != {"__user": 5}:
+                viol("value_changed_by_evaluate", "%s of %s: user value nested = %r, expected {'__user': 5}"
+                     % (where, E, v.get("nested")), subject="nested")
+        for v in run.violations:
+            if v["prop"] == "C16":
+                out["violations"].append(dict(v, workload="internals", job=dict(job)))
     return out
 
 
